@@ -160,6 +160,15 @@ Inductive proc :=
    proofs/TIndexP.v and props/C14.v is written for both values. *)
 Definition gj_releases_failed : bool := true.
 
+(* The second such place: the limit test of GetJournals, made AFTER the journal was added to res.
+   true = the code as repaired (proposed_fixes/C06-select-limit-off-by-one.diff): `len(res) > maxLimit`,
+   exactly maxLimit partitions are served, the (maxLimit+1)-th is acquired, added, and the visit is
+   refused (everything in res released).  false = the code before: `len(res) == maxLimit`, a
+   condition matching exactly maxLimit partitions was refused.  n = len(res) after the insertion. *)
+Definition gj_limit_inclusive : bool := true.
+Definition limit_hit_g (incl : bool) (n limit : nat) : bool := if incl then Nat.ltb limit n else Nat.eqb n limit.
+Definition limit_hit (n limit : nat) : bool := limit_hit_g gj_limit_inclusive n limit.
+
 Inductive djst := DjLock | DjSize | DjUnlockSz | DjDelete | DjUnlock2.
 
 Inductive ctl :=
@@ -280,7 +289,7 @@ Definition callback (ix : tix) (a : actor) (x : nat) : actor :=
       then (* Journals.GetOrCreate failed: x is neither in res nor released (unless repaired) *)
         if gj_releases_failed then with_cf a (CRelF x) (f_fail f)
         else {| a_prog := a_prog a; a_cur := a_cur a; a_ctl := CFin; a_f := f_fail f; a_lost := a_lost a ++ [x] |}
-      else if Nat.eqb (S (length (f_res f))) limit
+      else if limit_hit (S (length (f_res f))) limit
            then with_cf a CFin (f_keep f x true)
            else with_cf a CNext (f_keep f x false)
   | PTrunc _ zero _ _ _ =>
